@@ -361,7 +361,11 @@ int main(int argc, char **argv)
             cnt += tot;
         }
         // longer arrays (stack VLA sizes): lengths 8..64 step, single pattern each
-        for (int n : {8, 9, 16, 33, 64, 100, 257, 1000, 4099, 16384, 16385, 20001, 32769, 40002, 65537})
+        std::set<int> lens = {8, 9, 16, 33, 64, 100, 257, 1000, 4099, 16384, 16385, 20001, 32769, 40002, 65537};
+        for (u64 L : culist(args.kv, "lits"))
+            for (u64 m : {1ULL, 2ULL, 3ULL})
+                for (long long d : {-1LL, 0LL, 1LL}) { long long x = (long long)(L * m) + d; if (x >= 7 && x <= 140000) lens.insert((int)x); }
+        for (int n : lens)
         {
             chk_batch(gen_array((size_t)n), ev, "gen=1");
             cnt++;
